@@ -58,6 +58,7 @@ pub struct Arena {
     pub events: Vec<Event>,
     pub ser_log: Vec<(Vec<u8>, SerObj)>,
     pub var_shadow: HashMap<u32, Vec<u64>>, // var term id -> shadow limbs
+    pub var_pos: HashMap<u32, usize>,       // var term id -> merlin log length at creation
     pub opaque: Vec<String>,
     pub counters: HashMap<String, usize>,
     pub ctx: String,
